@@ -1,9 +1,10 @@
 (* Extraction of the class-diagram input adaptor model (build/kmodel). *)
 From Coq Require Import Extraction ExtrOcamlBasic ExtrOcamlNativeString.
-From KV Require Import Lib.Str Lib.ODict Model.Vpp Model.Uml Model.UmlBlob.
+From KV Require Import Lib.Str Lib.ODict Model.Vpp Model.Uml Model.UmlBlob Model.UmlWriter.
 
 Extraction Blacklist String List Bool.
 
 Separate Extraction
   UmlBlob.parse_blob UmlBlob.load_cdiagram UmlBlob.to_cdiagram UmlBlob.adaptor UmlBlob.type_and_name UmlBlob.default_format
-  UmlBlob.container_type UmlBlob.clean_modifiers UmlBlob.dec.
+  UmlBlob.container_type UmlBlob.clean_modifiers UmlBlob.dec
+  UmlWriter.print_node UmlWriter.encode_cdiagram.
